@@ -673,9 +673,18 @@ fn run_iter(src: &str) -> String {
             for s in n.iter_identifiers_mut() {
                 s.insert(0, 'i');
             }
+            // the immutable iterators once more, on the rewritten tree: they list the names as they are now
+            let after = format!(
+                "{};{};{};{};{}",
+                j(n.iter_identifiers().map(hex).collect()),
+                j(n.iter_variable_identifiers().map(hex).collect()),
+                j(n.iter_read_variable_identifiers().map(hex).collect()),
+                j(n.iter_write_variable_identifiers().map(hex).collect()),
+                j(n.iter_function_identifiers().map(hex).collect())
+            );
             format!(
-                "OK ids[{}] vars[{}] reads[{}] writes[{}] fns[{}] nodes[{}] ops[{}] idsm[{}] varsm[{}] readsm[{}] writesm[{}] fnsm[{}] via<{}> adapt<{}> free<{}> renamed{}",
-                a, b, c, d, e, nodes, ops, am, bm, cm, dm, em, others, adapt, free, tree_text(&n)
+                "OK ids[{}] vars[{}] reads[{}] writes[{}] fns[{}] nodes[{}] ops[{}] idsm[{}] varsm[{}] readsm[{}] writesm[{}] fnsm[{}] via<{}> adapt<{}> free<{}> after<{}> renamed{}",
+                a, b, c, d, e, nodes, ops, am, bm, cm, dm, em, others, adapt, free, after, tree_text(&n)
             )
         },
     }
